@@ -338,13 +338,12 @@ func (t *Tracker) LearnLoose(sl Slot, p Phys) (ords []int, notes []string) {
 
 // ---------------------------------------------------------------- lab checkpoints
 
-// Checkpoint is a restorable image of a Lab: storage content, key identities, bookkeeping.
+// Checkpoint is a restorable image of a Lab: storage content, key identities, history. What a
+// handle keeps in memory (key cache, offered keys) is not part of it: Rollback opens a fresh handle.
 type Checkpoint struct {
-	Image   *StorageImage
-	tr      *Tracker
-	hist    []Op
-	clean   bool
-	offered map[Slot]map[int]bool
+	Image *StorageImage
+	tr    *Tracker
+	hist  []Op
 }
 
 // Checkpoint records the present storage content and identities.
@@ -353,15 +352,7 @@ func (l *Lab) Checkpoint() (*Checkpoint, error) {
 	if err != nil {
 		return nil, err
 	}
-	cp := &Checkpoint{Image: im, tr: l.T.Clone(), hist: append([]Op(nil), l.History...), clean: l.clean, offered: map[Slot]map[int]bool{}}
-	for sl, m := range l.offered {
-		c := map[int]bool{}
-		for k, v := range m {
-			c[k] = v
-		}
-		cp.offered[sl] = c
-	}
-	return cp, nil
+	return &Checkpoint{Image: im, tr: l.T.Clone(), hist: append([]Op(nil), l.History...)}, nil
 }
 
 // Rollback puts the lab back into the checkpointed state with a freshly opened main handle
